@@ -651,6 +651,22 @@ func create(env *env) *VM {
 	return vm
 }
 
+// selectOrDone executes a select with the case cas and the case of the done
+// channel of the context. It returns the result of the select, 1 is the index
+// of the done case.
+//
+// The two cases are appended to vm.cases, to reuse its memory, and are
+// removed before returning, also if the select panics, as a send on a closed
+// channel does, so that they are not seen by the next select.
+func (vm *VM) selectOrDone(cas reflect.SelectCase) (int, reflect.Value, bool) {
+	n := len(vm.cases)
+	vm.cases = append(vm.cases, cas, vm.env.doneCase)
+	defer func() {
+		vm.cases = vm.cases[:n]
+	}()
+	return reflect.Select(vm.cases[n:])
+}
+
 // startGoroutine starts a new goroutine to execute a function call at program
 // counter pc. If the function is native, returns true.
 func (vm *VM) startGoroutine() bool {
